@@ -187,12 +187,18 @@ def fbody(p):
         return ("auto pr = a0 %s b0;" % o, "fres(pr)", "%s %s auto wr = unwrap_res(xa %s xb);" % (da, db, o), "fres(wr)")
     if f == "cmpd":
         o = FBIN[p["op"]]
-        return ("%s pa = a0; pa %s= b0;" % (FCT[ka], o), "fres(pa)", "%s %s xa %s= xb;" % (da, db, o), "fres(unwrap_res(xa))")
+        return ("%s pa = a0; pa %s= b0;" % (FCT[ka], o), "fres(pa)",
+                "%s %s auto&& rr = (xa %s= xb); bool refok = (std::addressof(rr) == std::addressof(xa));" % (da, db, o),
+                'fres(unwrap_res(xa)) + (refok ? "" : " NOT-THE-OPERAND")')
     if f == "incdec":
         pre = p["op"].startswith("pre")
         o = "++" if p["op"].endswith("inc") else "--"
         e_w = "%sxa" % o if pre else "xa%s" % o
         e_p = "%spa" % o if pre else "pa%s" % o
+        if pre:
+            return ("%s pa = a0; auto pr = %s;" % (FCT[ka], e_p), 'fres(pr) + ":" + fres(pa)',
+                    "%s auto&& rr = %s; bool refok = (std::addressof(rr) == std::addressof(xa)); auto wr = unwrap_res(rr);" % (da, e_w),
+                    'fres(wr) + ":" + fres(unwrap_res(xa)) + (refok ? "" : " NOT-THE-OPERAND")')
         return ("%s pa = a0; auto pr = %s;" % (FCT[ka], e_p), 'fres(pr) + ":" + fres(pa)',
                 "%s auto wr = unwrap_res(%s);" % (da, e_w), 'fres(wr) + ":" + fres(unwrap_res(xa))')
     if f == "un":
@@ -279,13 +285,19 @@ def body(p, a0, b0):
                 "%s %s auto wr = unwrap_res(xa %s xb);" % (da, db, o), "res2(wr)")
     if f == "cmpd":
         o = BIN[p["op"]]
+        # the plain compound assignment is an lvalue designating its left operand: so must the wrapped one be
         return ("%s pa = %s; pa %s= %s;" % (CT[ka], a0, o, b0), "res2(pa)",
-                "%s %s xa %s= xb;" % (da, db, o), "res2(unwrap_res(xa))")
+                "%s %s auto&& rr = (xa %s= xb); bool refok = (std::addressof(rr) == std::addressof(xa));" % (da, db, o),
+                'res2(unwrap_res(xa)) + (refok ? "" : " NOT-THE-OPERAND")')
     if f == "incdec":
         pre = p["op"].startswith("pre")
         o = "++" if p["op"].endswith("inc") else "--"
         e_w = "%sxa" % o if pre else "xa%s" % o
         e_p = "%spa" % o if pre else "pa%s" % o
+        if pre:      # ++x / --x is an lvalue designating x
+            return ("%s pa = %s; auto pr = %s;" % (CT[ka], a0, e_p), 'res2(pr) + ":" + show_int(pa)',
+                    "%s auto&& rr = %s; bool refok = (std::addressof(rr) == std::addressof(xa)); auto wr = unwrap_res(rr);" % (da, e_w),
+                    'res2(wr) + ":" + show_int(unwrap_res(xa)) + (refok ? "" : " NOT-THE-OPERAND")')
         return ("%s pa = %s; auto pr = %s;" % (CT[ka], a0, e_p), 'res2(pr) + ":" + show_int(pa)',
                 "%s auto wr = unwrap_res(%s);" % (da, e_w), 'res2(wr) + ":" + show_int(unwrap_res(xa))')
     if f == "un":
